@@ -74,6 +74,9 @@ def fixed_scenarios():
     p = P([[3, 8], [6, 8], [6, 8]]); x = p.new(0); y = p.new(0); z = p.new(0); z1 = p.send(z, 1); b = p.new(1); c = p.new(2)
     out.append(p.scn("two arrivals for one free slot while the node lock is busy with a remote gate", [("g1", z1, "H"), ("send", b, 0), ("send", c, 0)]))
     out.append(p.scn("two creations and an arrival for one free slot while the node lock is busy", [("g1", z1, "H"), ("new", 0), ("new", 0), ("send", b, 0)]))
+    p = P(); x = p.new(0); y = p.new(0); z = p.new(0); z1 = p.send(z, 1); b = p.new(1); c = p.new(2)
+    out.append(p.scn("two arrivals with room for both while the node lock is busy with a remote gate", [("g1", z1, "H"), ("send", b, 0), ("send", c, 0)]))
+    out.append(p.scn("an arrival and two creations with room for all while the node lock is busy", [("g1", z1, "K"), ("send", b, 0), ("new", 0), ("new", 0)]))
     p = P(); x = p.new(0); x1 = p.send(x, 1); y = p.new(1)
     out.append(p.scn("creations racing with a remote measurement that holds the node lock", [("meas", x1, 1), ("new", 0), ("new", 0), ("g1", y, "X")],
                      {str(x): [1, 0]}))
@@ -379,7 +382,7 @@ def explore(ctx, pid, scenarios, per_scn, env, cases=None):
             ctx.count("scenarios_without_complete_sequential_order")
         # scenarios in which a register changes its simulating node while other operations wait for it need a particular
         # interleaving (a few percent of the random schedules): they get four times as many schedules
-        heavy = any(w in scn["name"] for w in ("pulled", "pulling", "crossing directions", "both-remote merge"))
+        heavy = any(w in scn["name"] for w in ("pulled", "pulling", "crossing directions", "both-remote merge", "room for"))
         very = "gate and measurement of a qubit whose register is being pulled" in scn["name"]     # a gate slipping between lock release and register move: ~2 % of schedules
         four = "to another node (" in scn["name"]             # the four-node variants of the same race
         for _ in range(per_scn * (12 if very else 6 if four else 4 if heavy else 1)):
